@@ -207,7 +207,7 @@ func (m *pkMon) check(op, res string, cur *pkSnap) {
 	kind := f[0]
 	prop := "C05"
 	switch kind {
-	case "recv", "ack", "timeout", "timeoutclose", "fin", "finkey", "send", "fork", "epoch", "block", "state", "finstate":
+	case "recv", "ack", "timeout", "timeoutclose", "fin", "finkey", "send", "sendblk", "fork", "epoch", "block", "state", "finstate":
 		prop = "C04"
 	}
 	// a rejected message changes nothing
